@@ -1,90 +1,3 @@
-(* C05 -- B and H are linear in the excitation, over R, for the closed-form cores modelled in
-   CoreModel.v (dipole: moment; sphere: polarization; polyline segment and circle (modelled
-   branches): current) and, for the BHJM wrappers of WrapModel.v, in any field, given that the
-   (opaque) core is linear in the excitation.
-   Division is Coq's total division (x / 0 = x * / 0), so no side conditions are needed: every
-   branch condition of these models is independent of the excitation. *)
-From Coq Require Import Reals Lra ZArith Bool List Field.
-From MV Require Import Model.CoreNum Model.CoreModel Model.CoreSpec Proofs.CoreProofs.
-Open Scope R_scope.
-
-(* a J1 + b J2 *)
-Definition lin (a b : R) (u v : RV3) : RV3 := Rvadd (Rvscale a u) (Rvscale b v).
-
-Ltac destr_ifs :=
-  repeat match goal with |- context [if ?c then _ else _] => destruct c end.
-
-(* unfold the model completely, whatever helper definitions CoreModel.v is split into (it is another
-   builder's file and gets refactored): everything except the primitives of the reals *)
-Ltac unfold_all :=
-  cbv beta iota zeta delta -[Rplus Rminus Rmult Rdiv Rinv Ropp sqrt Rabs Rltb Reqb PI IZR].
-
-Lemma dipole_inf_eq (m : R) : dipole_inf NumR m = m * / 0.
-Proof.
-  unfold dipole_inf. cbn. destruct (Reqb m 0) eqn:E; [|reflexivity].
-  apply Reqb_true in E. subst. unfold c0. cbn. ring.
-Qed.
-
-Theorem dipole_linear (f : field) (mu0 : R) (o m1 m2 : RV3) (a b : R) :
-  dipole_BH NumR f mu0 o (lin a b m1 m2)
-  = lin a b (dipole_BH NumR f mu0 o m1) (dipole_BH NumR f mu0 o m2).
-Proof.
-  destruct o as [[x y] z], m1 as [[p1 p2] p3], m2 as [[q1 q2] q3].
-  assert (H : dipole_H NumR (x, y, z) (lin a b (p1, p2, p3) (q1, q2, q3))
-              = lin a b (dipole_H NumR (x, y, z) (p1, p2, p3)) (dipole_H NumR (x, y, z) (q1, q2, q3))).
-  { unfold dipole_H, lin, Rvadd, Rvscale. rewrite !dipole_inf_eq.
-    unfold_model. destr_ifs; apply triple_eq; unfold Rdiv; ring. }
-  destruct f; unfold dipole_BH; rewrite H; [|reflexivity].
-  destruct (dipole_H NumR (x, y, z) (p1, p2, p3)) as [[u1 u2] u3].
-  destruct (dipole_H NumR (x, y, z) (q1, q2, q3)) as [[v1 v2] v3].
-  unfold_model. unfold lin, Rvadd, Rvscale. apply triple_eq; ring.
-Qed.
-
-Theorem sphere_linear (f : field) (mu0 : R) (o : RV3) (d : R) (P1 P2 : RV3) (a b : R) :
-  sphere_BH NumR f mu0 o d (lin a b P1 P2)
-  = lin a b (sphere_BH NumR f mu0 o d P1) (sphere_BH NumR f mu0 o d P2).
-Proof.
-  destruct o as [[x y] z], P1 as [[p1 p2] p3], P2 as [[q1 q2] q3].
-  unfold lin, Rvadd, Rvscale. destruct f; unfold_all; destr_ifs; apply triple_eq; unfold Rdiv; ring.
-Qed.
-
-Theorem polyline_linear (f : field) (mu0 : R) (o p1 p2 : RV3) (i1 i2 a b : R) :
-  polyline_BH NumR f mu0 o p1 p2 (a * i1 + b * i2)
-  = lin a b (polyline_BH NumR f mu0 o p1 p2 i1) (polyline_BH NumR f mu0 o p1 p2 i2).
-Proof.
-  destruct o as [[x y] z], p1 as [[a1 a2] a3], p2 as [[b1 b2] b3].
-  unfold lin, Rvadd, Rvscale. destruct f; unfold_all; destr_ifs;
-    apply triple_eq; unfold Rdiv; ring.
-Qed.
-
-(* circle: which branch is taken does not depend on the current; on the modelled branches the
-   field is linear in it (the general branch is not modelled: None) *)
-Theorem circle_branch_indep (o : RV3) (d i1 i2 : R) :
-  (circle_H NumR o d i1 = None <-> circle_H NumR o d i2 = None).
-Proof.
-  destruct o as [[x y] z]. unfold circle_H. destruct (circle_branch_of NumR (x, y, z) d); split; congruence.
-Qed.
-
-Theorem circle_linear (f : field) (mu0 : R) (o : RV3) (d i1 i2 a b : R) :
-  circle_BH NumR f mu0 o d (a * i1 + b * i2)
-  = match circle_BH NumR f mu0 o d i1, circle_BH NumR f mu0 o d i2 with
-    | Some h1, Some h2 => Some (lin a b h1 h2)
-    | _, _ => None
-    end.
-Proof.
-  destruct o as [[x y] z]. unfold circle_BH, circle_H.
-  destruct (circle_branch_of NumR (x, y, z) d); destruct f; try reflexivity;
-    f_equal; unfold lin, Rvadd, Rvscale; unfold_model; apply triple_eq; unfold Rdiv; ring.
-Qed.
-
-(* non-vacuity: the general formulas are exercised off the degenerate sets *)
-Lemma linear_nonvacuous :
-  dipole_BH NumR FH 1 (1, 0, 0) (0, 0, 1) <> (0, 0, 0).
-Proof.
-  pose proof PI_RGT_0 as Hpi.
-  rewrite (proj2 (dipole_B_spec 1 (1, 0, 0) (0, 0, 1) ltac:(intros H; inversion H; lra))).
-  unfold point_dipole_H, Rnorm, Rdot. replace (1 * 1 + 0 * 0 + 0 * 0) with 1 by ring. rewrite sqrt_1.
-  intros H. inversion H as [[H1 H2 H3]]. clear H1 H2 H. revert H3.
-  replace ((3 * (0 * 1 + 0 * 0 + 1 * 0) * 0 / 1 ^ 5 - 1 / 1 ^ 3) / (4 * PI)) with (- / (4 * PI)) by (field; lra).
-  intros H3. assert (0 < / (4 * PI)) by (apply Rinv_0_lt_compat; lra). lra.
-Qed.
+(* C05 -- linearity in the excitation over R for the cores of CoreModel.v: the proofs live in
+   LinearExcDC.v (dipole, circle), LinearExcSphere.v, LinearExcPoly.v, which build in parallel. *)
+From MV Require Export Proofs.LinearExcBase Proofs.LinearExcDC Proofs.LinearExcSphere Proofs.LinearExcPoly.
